@@ -19,7 +19,7 @@ func isPrimitive(name string) bool {
 	switch name {
 	case "instant", "time", "date", "dateTime", "base64Binary",
 		"decimal", "boolean", "url", "code", "string", "integer", "uri",
-		"canonical", "markdown", "id", "oid", "uuid", "unsignedInt", "positiveInt":
+		"canonical", "markdown", "id", "oid", "uuid", "unsignedInt", "positiveInt", "xhtml":
 		return true
 	default:
 		return false
@@ -30,7 +30,7 @@ func primitiveToLowercase(name string) string {
 	switch name {
 	case "Instant", "Time", "Date", "DateTime", "Base64Binary",
 		"Decimal", "Boolean", "Url", "Code", "String", "Integer", "Uri",
-		"Canonical", "Markdown", "Id", "Oid", "Uuid", "UnsignedInt", "PositiveInt":
+		"Canonical", "Markdown", "Id", "Oid", "Uuid", "UnsignedInt", "PositiveInt", "Xhtml":
 		return strcase.ToLowerCamel(name)
 	default:
 		return name
